@@ -131,7 +131,7 @@ func (c *Ctx) ConfineStores(rule, field string, litToo bool, allowed ...string) 
 		n++
 		name := c.P.Name(s.fn)
 		where[name]++
-		if !globAny(allowed, name) && !globAny(allowed, rootName(name)) {
+		if !c.allowedOwner(s.fn, allowed) {
 			bad = append(bad, fmt.Sprintf("%s at %s", name, c.P.InstrPos(s.in)))
 			if badPos == "" {
 				badPos = c.P.InstrPos(s.in)
@@ -209,7 +209,7 @@ func (c *Ctx) ConfineCalls(rule, calleeGlob string, min int, allowed ...string) 
 	for _, s := range sites {
 		name := c.P.Name(s.fn)
 		where[name]++
-		if !globAny(allowed, name) && !globAny(allowed, rootName(name)) {
+		if !c.allowedOwner(s.fn, allowed) {
 			bad = append(bad, fmt.Sprintf("%s at %s", name, c.P.InstrPos(s.in)))
 			if badPos == "" {
 				badPos = c.P.InstrPos(s.in)
